@@ -29,7 +29,8 @@ func merge(ms ...map[string]any) map[string]any {
 	return out
 }
 
-var universe = []string{"a", "a/b", "a/b/c", "a/e", "f"}
+// names include a dotfile and names starting with the letters of the whiteout prefix ".wh."
+var universe = []string{"a", "a/b", "a/b/c", "a/.we", "hf"}
 
 const (
 	kReg = iota
@@ -58,7 +59,7 @@ type onode struct {
 	implicit bool // directory that exists only because something was created beneath it
 }
 
-const symlinkTarget = "/f"
+const symlinkTarget = "/hf"
 
 func (e entrySpec) tarEntry(prefix string) tarstub.Entry {
 	switch e.kind {
